@@ -228,6 +228,76 @@ def h_relative_ops(ctx):
     ctx.check("distance-past-is-the-offset-along-the-heading", dp == s * (a.x - b.x) + c * (a.y - b.y))
 
 
+def h_relative_to(ctx):
+    """`X relative to Y` for every documented pairing: the orientation obtained by starting in the SECOND direction
+    and then rotating according to the first (Y * X), sums for headings and vectors, the local frame for oriented points."""
+    import scenic.core.object_types as OT
+    import scenic.syntax.veneer as V
+    from scenic.core.vectors import Orientation
+
+    M.bind(ctx)
+
+    class SymOri(Orientation):
+        def __init__(self, rot):
+            self.r = rot
+
+        def __mul__(self, other):
+            r = other.r if isinstance(other.r, M.SymRot) else M.SymRot.concrete(other.r)
+            return SymOri(self.r * r)
+
+        __hash__ = object.__hash__
+
+        def __eq__(self, other):
+            return self is other
+
+    def ori(name):
+        return SymOri(M.SymRot(ctx, name, constrain=False))
+
+    def op(name):
+        X = OT.OrientedPoint.__new__(OT.OrientedPoint, _internal=True)
+        for k, v in dict(position=_vec(ctx, name + ".position"), orientation=ori(name + ".R"), heading=ctx.real(name + ".heading")).items():
+            object.__setattr__(X, k, v)
+        return X
+
+    def same_rot(a, b):
+        return E.sym_and(*[a.m[i][j] == b.m[i][j] for i in range(3) for j in range(3)])
+
+    case = ctx.choice("operands", ["orientation/orientation", "orientedpoint/orientation", "orientation/orientedpoint",
+                                   "heading/orientedpoint", "orientedpoint/heading", "vector/vector",
+                                   "vector/orientedpoint", "orientedpoint/vector"])
+    xk, yk = case.split("/")
+
+    def mk(kind, name):
+        return {"orientation": lambda: ori(name), "orientedpoint": lambda: op(name), "heading": lambda: ctx.real(name),
+                "vector": lambda: _vec(ctx, name)}[kind]()
+
+    X, Y = mk(xk, "X"), mk(yk, "Y")
+    saved = OT.OrientedPoint._with
+    OT.OrientedPoint._with = staticmethod(lambda **kw: kw)  # the derived point as its constructor arguments
+    try:
+        got = V.RelativeTo(X, Y)
+    finally:
+        OT.OrientedPoint._with = saved
+    kinds = {xk, yk}
+    if kinds <= {"orientation", "orientedpoint"}:
+        xr = X.r if xk == "orientation" else X.orientation.r
+        yr = Y.r if yk == "orientation" else Y.orientation.r
+        ctx.check("orientation-relative-to: start in the second direction, then rotate by the first (Y * X)",
+                  same_rot(got.r, yr * xr), operands=case)
+    elif kinds == {"heading", "orientedpoint"}:
+        o, h = (X, Y) if xk == "orientedpoint" else (Y, X)
+        ctx.check("heading-relative-to-oriented-point-adds-to-its-heading", got == o.heading + h, operands=case)
+    elif kinds == {"vector"}:
+        ctx.check("vector-relative-to-vector-is-the-sum", E.sym_and(got.x == X.x + Y.x, got.y == X.y + Y.y, got.z == X.z + Y.z))
+    else:
+        o, v = (X, Y) if xk == "orientedpoint" else (Y, X)
+        w = o.orientation.r.mat_vec(v.coordinates)
+        p = got["position"]
+        ctx.check("vector-relative-to-oriented-point-is-in-its-local-frame",
+                  E.sym_and(p[0] == o.position.x + w[0], p[1] == o.position.y + w[1], p[2] == o.position.z + w[2]), operands=case)
+        ctx.check("derived-point-inherits-the-orientation", got.get("parentOrientation") is o.orientation, operands=case)
+
+
 def ground_beyond():
     """beyond X by O from Y on seeded concrete vectors: the offset is expressed in the frame centred at X and
     oriented along the line of sight from Y (its y axis points away from Y)."""
@@ -330,6 +400,9 @@ def obligations(tier, seed):
         Obligation("vector-algebra", h_vector_algebra, "Vector rotation / offsets / distance / products", {},
                    [Vector.rotatedBy, Vector.offsetRotated, Vector.offsetRadially, Vector.distanceTo, Vector.dot, Vector.cross], mm, opts=o),
         Obligation("normalizeAngle", h_normalize_angle, "normalizeAngle in [-pi,pi], congruent mod 2pi", {"angle": "|a| <= 5 pi"}, [G.normalizeAngle], [], opts=o),
+        Obligation("relative-to-operator", h_relative_to, "X relative to Y for all documented operand pairings (orientations as arbitrary 3x3 matrices)",
+                   {"operands": "8 pairings (heading relative to heading goes through scipy and is covered by the ground orientation check)", "rotations": "arbitrary real 3x3 matrices (composition is matrix product)"},
+                   [V.RelativeTo, OT.OrientedPoint.relativize], mm, opts=o),
         Obligation("relative-operators", h_relative_ops, "relative position / distance from / offsetLocally / distance past", {},
                    [V.RelativePosition, V.DistanceFrom, Vector.offsetLocally, OT.OrientedPoint.distancePast], mm, opts=o),
         Obligation("beyond", None, "beyond X by O from Y on seeded vectors (ground: Orientation.fromEuler is scipy code)", {"cases": 40}, [V.Beyond], [], ground=ground_beyond),
